@@ -83,10 +83,22 @@ fn small(rng: &mut Rng) -> i32 {
 /// stride of INT_MIN (descending) / INT_MAX (ascending), so the counter wraps around before the
 /// guard can fail, and the loop takes one or more laps
 fn boundary_lap_spec(rng: &mut Rng) -> LoopSpec {
-  let mag = *rng.pick(&[100_003i32, 249_300, 1_000_003, 65_537, 7, 3, 2]);
+  // draw until the wrapped run ends within the iteration budget (small strides need too many laps)
+  let mut spec = boundary_lap_spec_once(rng);
+  for _ in 0..40 {
+    if trips_of(&spec, true).is_some() {
+      break;
+    }
+    spec = boundary_lap_spec_once(rng);
+  }
+  spec
+}
+
+fn boundary_lap_spec_once(rng: &mut Rng) -> LoopSpec {
+  let mag = *rng.pick(&[100_003i32, 249_300, 250_000, 1_000_003, 500_000, 65_537, 123_457, 7]);
   let down = rng.bool();
   let stride = if down { -mag } else { mag };
-  let slack = rng.below(mag.min(1000) as usize) as i32;
+  let slack = rng.below(mag as usize) as i32;
   let bound = if down { i32::MIN.wrapping_add(slack) } else { i32::MAX.wrapping_sub(slack) };
   let cmp = if down { *rng.pick(&[Cmp::Gt, Cmp::Ge]) } else { *rng.pick(&[Cmp::Lt, Cmp::Le]) };
   let trips_before_wrap = 1 + rng.below(600) as i32;
@@ -94,7 +106,7 @@ fn boundary_lap_spec(rng: &mut Rng) -> LoopSpec {
   LoopSpec {
     cmp,
     i_on_left: rng.bool(),
-    negated: rng.chance(1, 6),
+    negated: rng.chance(1, 8),
     start,
     stride,
     bound,
@@ -104,13 +116,13 @@ fn boundary_lap_spec(rng: &mut Rng) -> LoopSpec {
     derived_use: 0,
     accs: 1 + rng.below(2),
     acc_uses_i: false,
-    ret: *rng.pick(&[0u8, 0, 2, 3]),
+    ret: *rng.pick(&[0u8, 0, 0, 2, 3]),
     swap_branches: rng.chance(1, 6),
   }
 }
 
 fn pick_spec(rng: &mut Rng, wild: bool) -> LoopSpec {
-  if wild && rng.chance(1, 6) {
+  if wild && rng.chance(1, 3) {
     return boundary_lap_spec(rng);
   }
   let strides: &[i32] = if wild { &[1, -1, 2, -2, 3, -3, 7, -7, 1 << 29, -(1 << 29), 1_000_000_000, -1_000_000_000, 100_003, -100_003, 249_300, -249_300, 1_000_003, -1_000_003] } else { &[1, -1, 2, -2, 3, -3, 7, -7] };
